@@ -301,6 +301,12 @@ class Engine:
     # ------------------------------------------------------------------ top level
     def run(self):
         c = self.c
+        # the contract states invariants for loops by their ordinal in the source: a loop that is gone takes its per-iteration
+        # obligations with it, which would otherwise pass silently
+        nloops = len(self.loop_ids)
+        gone = sorted(k for k in c.loops if isinstance(k, int) and k >= nloops)
+        if gone and not getattr(c, 'optional_loops', False):
+            raise Unsupported('the contract states an invariant for loop #%d; the function body has only %d loop(s)' % (gone[0], nloops))
         st = State(schema=c.schema, aliases=c.aliases)
         # parameters
         args = self.fn.args
